@@ -10,8 +10,8 @@ Stage 2+3 (correspondence and search, one corpus): for every object of the corpu
   G = Model/Validate.v `object_errors` evaluated by coqc on the object's listing,
   P = vplib/ocflv.py (a second independent implementation, Python),
   plus, where the generator knows it by construction, the expected verdict E.
-  Oracle: G = P (= E) and R differs -> rocfl is wrong on that object: a known finding when the
-  object lies in a class of Model/KnownC07.v, else a violation with the object inline.
+  Oracle: G = P (= E) and R differs -> rocfl is wrong on that object: a violation with the object
+  inline (no known class is left: the respelled valid inventories are must-pass since fix 2f36fc5).
   G <> P or G <> E -> one of the independent readings is wrong: correspondence break.
 Corpus: official + custom fixtures; objects written by rocfl itself through generated
   histories; single spec-relevant edits of the inventory (re-serialised, sidecar regenerated,
@@ -29,7 +29,6 @@ import unicodedata
 from vplib import common, hist, vallib
 from vplib.vallib import O, jget, jset, jdel, jrename, jcopy, jload, Spelling, PLAIN, Rawjson
 
-KNOWN_SLUG = "validator-escaped-string"
 INVALID, VALID = True, False
 
 
@@ -1293,6 +1292,64 @@ EDITS["spell-slash"] = _respell("plain", "compact", False, True)
 EDITS["spell-ascii"] = _respell("ascii", "pretty", True, False)
 
 
+@edit("spell-every-inventory")
+def _(o, rng):
+    """every inventory of the object (prior versions too) respelled: escapes, order, white space"""
+    sp = Spelling(rng, esc=pick(o, rng, ["u-all", "u-some", "ascii"]), ws=rng.choice(["compact", "spaces", "pretty"]),
+                  shuffle=rng.random() < 0.5, slash=rng.random() < 0.5)
+    o.edit_all(lambda t: None, spelling=sp)
+    return both(VALID)
+
+
+NEEDS_ESCAPE = ['a"b', "a\\b", "tab\there", "bell\u0007", 'q"\\\u001f/é']
+
+
+@edit("id-needs-escape")
+def _(o, rng):
+    """an id that serde_json has to escape (quote, backslash, control character) in every inventory"""
+    nid = "urn:x:" + pick(o, rng, NEEDS_ESCAPE)
+    o.edit_all(lambda t: jset(t, "id", nid))
+    return both(VALID)
+
+
+@edit("lpath-needs-escape")
+def _(o, rng):
+    s = _some_state_slot(o, rng)
+    if s is None:
+        return None
+    st, i, j = s
+    new = pick(o, rng, [x.replace("/", "_") for x in NEEDS_ESCAPE])
+    allp = [p for _, ps in st for p in ps]
+    if any(p == new or p.startswith(new + "/") for p in allp):
+        return None
+    st[i][1][j] = new
+    o.save()
+    return both(VALID)
+
+
+@edit("cdir-needs-escape")
+def _(o, rng):
+    """a content directory whose name needs a JSON escape: renamed on disk and in every inventory"""
+    old = o.cdir
+    new = pick(o, rng, ['c"d', "c\\d", "c\u0001d"])
+    for v in o.vkeys():
+        p = os.path.join(o.path, v, old)
+        if os.path.isdir(p):
+            os.rename(p, os.path.join(o.path, v, new))
+
+    def f(t):
+        jset(t, "contentDirectory", new)
+        vk = [k for k, _ in jget(t, "versions")]
+        for blk in [jget(t, "manifest")] + [b_ for _, b_ in (jget(t, "fixity") or [])]:
+            for d, ps in blk:
+                for i, x in enumerate(ps):
+                    parts = x.split("/")
+                    if len(parts) >= 3 and parts[0] in vk and parts[1] == old:
+                        ps[i] = "/".join([parts[0], new] + parts[2:])
+    o.edit_all(f)
+    return both(VALID)
+
+
 def labelled_dump(t, chosen, esc):
     """compact dump of an inventory tree; the string occurrence number [chosen] (in dump order) is
     written by esc(); returns (text, [labels in dump order])"""
@@ -1573,7 +1630,7 @@ def run(ctx):
     fixtures = fixture_bases(ctx)
     for name, path, exp in fixtures:
         corpus.append(dict(name=name, path=path, kind="fixture", source=name.split("/")[0], exp=(exp, exp) if "E092_" not in name and "E093_" not in name else (exp, None)))
-    written = history_objects(ctx, 10 if quick else 60, 28 if quick else 45)
+    written = history_objects(ctx, 6 if quick else 60, 24 if quick else 45)
     for name, path, exp in written:
         corpus.append(dict(name=name, path=path, kind="written", source="written", exp=(exp, exp)))
 
@@ -1582,7 +1639,7 @@ def run(ctx):
         corpus.append(dict(name=name, path=path, kind="regression", source="regression", exp=exp))
 
     bases = [(n, p) for n, p, e in fixtures if e == VALID] + [(n, p) for n, p, e in written]
-    per_edit = 9 if quick else 60
+    per_edit = 4 if quick else 60
     mdir = os.path.join(ctx.tmp, "mut")
     os.makedirs(mdir)
     edit_counts = collections.Counter()
@@ -1591,7 +1648,9 @@ def run(ctx):
         order = list(bases)
         rng.shuffle(order)
         made = 0
-        want = max(per_edit, VARIANTS.get(ename, 0))
+        # thorough: at least one object per variant of the edit's list; quick: a sample starting at a random variant
+        want = per_edit if quick else max(per_edit, VARIANTS.get(ename, 0))
+        offset = rng.randrange(1000) if quick else 0
         for bname, bpath in order:
             if made >= want:
                 break
@@ -1600,7 +1659,7 @@ def run(ctx):
             link_tree(bpath, dst)
             try:
                 o = Obj(dst)
-                o.k = made
+                o.k = offset + made
                 exp = f(o, rng)
             except (KeyError, IndexError, TypeError, AttributeError, ValueError, OSError) as ex:
                 exp = None
@@ -1622,10 +1681,8 @@ def run(ctx):
         G = vallib.g_verdicts("c07", paths)
         P = list(p_fut)
 
-    known_ids = {k_["id"] for k_ in ctx.known}
     matrix = collections.Counter()
     by_kind = collections.defaultdict(collections.Counter)
-    n_known = 0
     for c, r1, r2, g, (p1, p2) in zip(corpus, R1, R2, G, P):
         for mode, r, gc, pc, exp in (("fixity", r1, g["fix"], p1, c["exp"][0]), ("nofixity", r2, g["nofix"], p2, c["exp"][1])):
             rv = None if r["kind"] in ("panic", "timeout", "error") else (r["kind"] == "invalid")
@@ -1644,14 +1701,10 @@ def run(ctx):
                 common.corr_break(ctx, "both independent validators contradict the verdict the generator constructed", detail())
                 continue
             if rv is None or rv != gv:
-                if g["known"] and KNOWN_SLUG in known_ids and rv is not None and rv and not gv:
-                    ctx.known_hit(KNOWN_SLUG)
-                    n_known += 1
-                else:
-                    d = detail()
-                    d["expected"] = "rocfl validate must report %s: the independent validators agree (%s)" % (
-                        "errors" if gv else "no error", "a MUST of the specification is broken" if gv else "the object is valid")
-                    ctx.violation("impl-violation", d)
+                d = detail()
+                d["expected"] = "rocfl validate must report %s: the independent validators agree (%s)" % (
+                    "errors" if gv else "no error", "a MUST of the specification is broken" if gv else "the object is valid")
+                ctx.violation("impl-violation", d)
 
     ctx.coverage["corpus"] = {"fixtures": len(fixtures), "written_by_rocfl": len(written), "regression": len(regress), "edits": sum(edit_counts.values()),
                               "objects": len(corpus), "verdict_pairs": 2 * len(corpus)}
@@ -1659,7 +1712,7 @@ def run(ctx):
     ctx.coverage["verdict_matrix"] = dict(matrix)
     ctx.coverage["matrix_by_kind"] = {k_: dict(v) for k_, v in by_kind.items()}
     ctx.coverage["traces_validated_against_impl"] = 2 * len(corpus)
-    ctx.coverage["known_class_objects"] = {KNOWN_SLUG: n_known}
+    ctx.coverage["respelled_must_pass"] = {k_: dict(v) for k_, v in by_kind.items() if k_.startswith(("escape-", "spell-", "nonascii-"))}
     ctx.assumptions.append("object-level rules (directory structure, sidecars, cross-inventory consistency, fixity) of Model/Validate.v are tied to the specification by the fixture corpus and the second independent validator, not by a Coq theorem; digests enter the model as computed by Python hashlib")
     ctx.assumptions.append("rocfl's verdict is the exit status of the release CLI `rocfl validate -p` (2 = invalid) built from the current tree")
     return common.finish_with_proof(ctx, proof,
